@@ -18,7 +18,7 @@ static J mat_json(const RM& A, const char* kind)
 static void case_qr(Rng& rng, uint64_t index)
 {
 	unsigned n = 1 + (unsigned) (index % 7);
-	int kind   = (int) ((index / 7) % 4);
+	int kind   = (int) ((index / 7) % 6);
 	RM A(n, n);
 	const char* kname;
 	double scale = rng.coin(0.3) ? rng.loguni(1e-6, 1e6) : 1.0;
@@ -41,6 +41,33 @@ static void case_qr(Rng& rng, uint64_t index)
 					s += U(i, k) * (n == 1 ? 1.0L : powl((ld) kap, -(ld) k / (n - 1))) * V(j, k);
 				A(i, j) = (double) s;
 			}
+	}
+	else if(kind == 4)
+	{
+		// exact zeros at the head of columns: a diagonally dominant sparse matrix with its rows cyclically shifted, and M[0][0] = 0
+		kname = "row-shifted-sparse-with-zero-leading-entry";
+		RM B(n, n);
+		for(auto& x : B.a)
+			x = rng.coin(0.4) ? 0.0 : rng.normal();
+		for(unsigned i = 0; i < n; i++)
+			B(i, i) += (B(i, i) >= 0 ? 1.0 : -1.0) * n;
+		unsigned sh = n > 1 ? 1 + (unsigned) rng.below(n - 1) : 0;
+		for(unsigned i = 0; i < n; i++)
+			for(unsigned j = 0; j < n; j++)
+				A((i + sh) % n, j) = B(i, j);
+		if(n > 1)
+			A(0, 0) = 0.0;
+	}
+	else if(kind == 5)
+	{
+		// block diagonal with 2x2 blocks [[0,a],[b,c]]: the zero sits at the head of a trailing block when the reduction reaches it
+		kname = "block-diagonal-with-zero-block-heads";
+		for(unsigned i = 0; i + 1 < n; i += 2)
+		{
+			A(i, i) = 0.0, A(i, i + 1) = rng.mag(0.3, 3), A(i + 1, i) = rng.mag(0.3, 3), A(i + 1, i + 1) = rng.coin() ? 0.0 : rng.normal();
+		}
+		if(n % 2)
+			A(n - 1, n - 1) = rng.mag(0.3, 3);
 	}
 	else
 	{
@@ -124,7 +151,7 @@ static SymCase gen_sym(Rng& rng, unsigned n, int kind)
 	std::vector<ld> lam = C.lam;
 	for(unsigned i = n - 1; i > 0; i--)
 		std::swap(lam[i], lam[rng.below(i + 1)]);
-	switch(kind % 5)
+	switch(kind % 6)
 	{
 		case 0: {
 			C.kind = "haar-rotated";
@@ -175,6 +202,33 @@ static SymCase gen_sym(Rng& rng, unsigned n, int kind)
 			}
 			break;
 		}
+		case 5: {
+			// see-saw blocks [[0,m],[m,M]] (exact zero on the diagonal, at the head of the matrix and of trailing blocks):
+			// eigenvalues l1 = s, l2 = -r s  <=>  M = l1 + l2, m = sqrt(-l1 l2); the chain of magnitudes keeps the spectrum separated
+			C.kind		 = "block-diagonal-seesaw-with-zero-diagonal-entries";
+			C.structured = true;
+			C.S			 = RM(n, n);
+			C.lam.clear();
+			ld mag = rng.coin(0.3) ? (ld) rng.loguni(1e-3, 1e3) : 1.0L;
+			unsigned i = 0;
+			for(; i + 1 < n; i += 2)
+			{
+				ld l1 = mag * (rng.coin() ? 1 : -1);
+				mag *= rng.uni(0.15, 0.75);
+				ld l2 = -l1 / fabsl(l1) * mag;
+				mag *= rng.uni(0.15, 0.75);
+				C.S(i, i)	  = 0.0;
+				C.S(i + 1, i + 1) = (double) (l1 + l2);
+				C.S(i, i + 1) = C.S(i + 1, i) = (double) sqrtl(-l1 * l2);
+				C.lam.push_back(l1), C.lam.push_back(l2);
+			}
+			if(i < n)
+			{
+				C.S(i, i) = (double) mag;
+				C.lam.push_back(mag);
+			}
+			break;
+		}
 		default: {
 			// first eigenvector exactly orthogonal to the all-ones vector is impossible to keep after rounding; instead: first column of Q parallel to (1,...,1)
 			C.kind = "haar-rotated-with-all-ones-eigenvector";
@@ -189,7 +243,7 @@ static SymCase gen_sym(Rng& rng, unsigned n, int kind)
 static void case_eigen(Rng& rng, uint64_t index)
 {
 	unsigned n = 1 + (unsigned) (index % 7);
-	int kind   = (int) ((index / 7) % 5);
+	int kind   = (int) ((index / 7) % 6);
 	SymCase C  = gen_sym(rng, n, kind);
 	set_params(mat_json(C.S, C.kind));
 	hash_matrix(C.S);
